@@ -46,6 +46,15 @@ PROPS = {
    'partial': 'permanence of zero power / non-membership for tombstoned validators is covered by C13 invariants (see DESIGN.md)',
    'assumptions': ['slash fractions lie in (0,1) (Params.Validate)'],
  },
+ 'C03': {'runs': bridge('C03'), 'monitor_props': ['C03'], 'rule': BRIDGE_RULE, 'assumptions': SYMBOLIC + ['bitcoin transaction parsing is btcd (trusted dependency): the harness passes the strictly parsed outputs to the model', 'hash160 and the taproot tweak are data supplied by the harness (computed with the real libraries)']},
+ 'C05': {'runs': bridge('C05'), 'monitor_props': ['C05'], 'rule': BRIDGE_RULE, 'assumptions': SYMBOLIC + ['withdrawal ids in execution-layer requests are fresh (assigned by the bridge contract counter)', 'fee-rate test modelled exactly (fee > price*len); equals the float64 test for values below 2^53'],
+         'partial': 'exactly-one-notice (paid / refund lists) is checked by the implementation-side monitor and the terminality theorem; the NoDup statement over the ghost notice lists is not yet a Coq theorem'},
+ 'C06': {'runs': runs([{'family': 'bridge', 'n': 160, 'shards': 16, 'param': 'proj=C06,ops=45'}, {'family': 'locking', 'n': 160, 'shards': 16, 'param': 'proj=C15,blocks=14', 'tag': '1'}],
+                      [{'family': 'bridge', 'n': 4000, 'shards': 64, 'param': 'proj=C06,ops=70'}, {'family': 'locking', 'n': 3000, 'shards': 64, 'param': 'proj=C15,blocks=24', 'tag': '1'}]),
+         'monitor_props': ['C06'], 'rule': BRIDGE_RULE + ' ; ' + LOCKING_RULE,
+         'partial': 'the payload-level check (VerifyDequeue / unfinalised proposals consume nothing / restarts) is exercised at application level by C08/C09 checks'},
+ 'C16': {'runs': bridge('C16', ops=60), 'monitor_props': ['C16'], 'rule': BRIDGE_RULE, 'assumptions': SYMBOLIC,
+         'partial': 'the full group invariant (proposer not a voter, members distinct with activated/off-boarding records) and totality of the election step are checked by the implementation-side monitor on every history and by the model comparison; their inductive Coq proof is not finished'},
  'C04': {
    'runs': runs([{'family': 'merkle', 'n': 3000, 'shards': 16}],
                 [{'family': 'merkle', 'n': 60000, 'shards': 64}]),
